@@ -622,7 +622,11 @@ fn specs() -> Vec<SettingsSpec> {
     let mut b = SettingsSpec::faithful();
     b.root = "r".into();
     b.alloc = Some("::alloc".into());
-    vec![a, b]
+    // path settings with substitutes: the literal of a substituted struct uses the substitute's path
+    let mut c = SettingsSpec::faithful();
+    c.substitutes.push(("p::a::N".into(), "::ext::NN".into()));
+    c.substitutes.push(("p::a::H<T>".into(), "::ext::HH<T>".into()));
+    vec![a, b, c]
 }
 
 pub fn worker_check(state: &Json, ctx: &mut Ctx) {
